@@ -100,6 +100,7 @@ static uint32_t c20nv_savestate(Buf *b) {
     c20nv_trace("savestate", "rqu", &r, NULL); tr_end();
     return r.rc;
 }
+static void c20ctr_audit(Buf *b);
 /* read back everything the harness knows about: public data (flags!) and contents of every pool index, DIR, flags */
 static void c20nv_audit(Buf *b) {
     c20nv_flags(b);
@@ -109,6 +110,7 @@ static void c20nv_audit(Buf *b) {
         if (sz) c20nv_read(b, c20nv_pool_index(i), 0, sz);
     }
     c20nv_read(b, T12_NV_INDEX_DIR, 0, 20);
+    if (c20nv_owner) c20ctr_audit(b);
 }
 
 static uint32_t c20nv_rand_attrs(void) {
@@ -202,7 +204,8 @@ static Rsp c20_t12c_run(Buf *b, const char *label) {
     Rsp r = c20_run(b, label);
     if (r.rc == 0xFFFFFFFF && !r.len) return r;
     uint32_t ord = b->n >= 10 ? g32(b->p + 6) : 0;
-    if (ord == T12_ORD_NV_DefineSpace || ord == T12_ORD_NV_WriteValue || ord == T12_ORD_NV_ReadValue || ord == 0xCE || ord == 0xD0 || ord == 0x0D) {
+    if (ord == T12_ORD_NV_DefineSpace || ord == T12_ORD_NV_WriteValue || ord == T12_ORD_NV_ReadValue || ord == 0xCE || ord == 0xD0 || ord == 0x0D ||
+        ord == 0xDC || ord == 0xDD || ord == 0xDF || ord == 0xE0) {
         c20nv_main = r; c20nv_main_stores = g_store_perm_in_cmd; c20nv_have_main = 1; return r;     /* traced by the caller */
     }
     tr("op name=other loc=%d ret=%u rc=%u ord=%u stores=%ld", g_locality, r.ret, r.rc, ord, g_store_perm_in_cmd);
@@ -283,6 +286,40 @@ static void c20nv_random_owner(Buf *b) {
         uint32_t off = rnd(sz), n = 1 + rnd(sz - off); if (n > sizeof d) n = sizeof d;
         int aa = (c20nv_note[slot].attrs & NVP_AUTHWRITE) ? 1 : 0;
         c20_rand_bytes(d, n); c20nv_write_client(b, aa, idx, off, d, n); c20nv_read_client(b, (c20nv_note[slot].attrs & NVP_AUTHREAD) ? 1 : 0, idx, off, n); break; }
+    }
+}
+
+/* ---------- monotonic counters (owner histories): Model.Tpm12.Counter predicts rc, countID and value of every command ---------- */
+static const uint8_t c20ctr_auth[20] = {0xC7, 0xC7, 1, 2, 3, 4, 5, 6, 7, 8, 9, 10, 11, 12, 13, 14, 15, 16, 17, 18};
+static void c20ctr_trace(const char *name, uint32_t id, int corrupt, int ver, uint32_t value) {
+    if (!c20nv_have_main) return;
+    c20nv_have_main = 0;
+    const Rsp *r = &c20nv_main;
+    tr("ctr name=%s loc=%d ret=%u rc=%u id=%u ok=%d value=%u stores=%ld hmac=%d", name, g_locality, r->ret, r->rc, id, corrupt ? 0 : 1, value, c20nv_main_stores, ver);
+}
+static void c20ctr_random(Buf *b) {
+    uint32_t id = chance(85) ? rnd(5) : (uint32_t[]){7, 8, 9, 100, 0xFFFFFFFFu, 0xFFFFFFFEu}[rnd(6)], v = 0;
+    int corrupt = c20nv_corrupt(), ver = -1;
+    c20nv_have_main = 0;
+    switch (rnd(12)) {
+    case 0: case 1: case 2: { uint32_t nid = 0; t12c_counter_create(b, c20ctr_auth, (const uint8_t *)"c20c", &nid, &v, corrupt, &ver); c20ctr_trace("create", nid, corrupt, ver, v); break; }
+    case 3: case 4: case 5: case 6: t12c_counter_increment(b, NULL, id, c20ctr_auth, &v, corrupt, &ver); c20ctr_trace("increment", id, corrupt, ver, v); break;
+    case 7: t12c_counter_release(b, NULL, id, c20ctr_auth, corrupt, &ver); c20ctr_trace("release", id, corrupt, ver, 0); break;
+    case 8: t12c_counter_release_owner(b, NULL, id, corrupt, &ver); c20ctr_trace("releaseowner", id, corrupt, ver, 0); break;
+    default: {
+        t12_begin(b, T12_TAG0, T12_ORD_ReadCounter); b_u32(b, id);
+        Rsp r = c20_run(b, "readcounter"); if (c20nv_skipped(&r)) return;
+        if (r.rc == 0 && r.len >= 20) v = g32(r.p + 16);
+        tr("ctr name=read loc=%d ret=%u rc=%u id=%u ok=1 value=%u stores=%ld hmac=-1", g_locality, r.ret, r.rc, id, v, g_store_perm_in_cmd);
+        break; }
+    }
+}
+static void c20ctr_audit(Buf *b) {
+    for (uint32_t id = 0; id < 5; id++) {
+        t12_begin(b, T12_TAG0, T12_ORD_ReadCounter); b_u32(b, id);
+        Rsp r = c20_run(b, "readcounter"); if (c20nv_skipped(&r)) return;
+        uint32_t v = (r.rc == 0 && r.len >= 20) ? g32(r.p + 16) : 0;
+        tr("ctr name=read loc=%d ret=%u rc=%u id=%u ok=1 value=%u stores=%ld hmac=-1", g_locality, r.ret, r.rc, id, v, g_store_perm_in_cmd);
     }
 }
 static void c20nv_reset_notes(void) { memset(c20nv_note, 0, sizeof c20nv_note); c20nv_locked = 0; c20nv_owner = 0; c20nv_badauth = 0; c20nv_have_main = 0; }
